@@ -2,5 +2,5 @@
 # Build the framework offline from files on disk: harness (against /repo's current tree), Lean model,
 # theorems and the model driver executable.
 set -e
-cd /verif
+cd "$(dirname "$(readlink -f "$0")")"
 exec python3 ./check --setup
